@@ -998,9 +998,9 @@ func (e *Evaluator) evalStatement(stmt Statement) error {
 				}
 			}
 		case ValueObj:
-			for k, v := range *iterable.Value.Obj {
+			for _, k := range iterable.Value.sortedKeys() {
 				if indexLocal != nil {
-					indexLocal.Value = v.Value
+					indexLocal.Value = (*iterable.Value.Obj)[k].Value
 				}
 				local.Value = NewValue(k)
 				err := e.evalStatement(st.Body)
